@@ -48,6 +48,9 @@ type Schema struct {
 	Disc  *Disc     `json:"disc,omitempty"`
 
 	Default json.RawMessage `json:"default,omitempty"`
+
+	Description string `json:"description,omitempty"`
+	Deprecated  bool   `json:"deprecated,omitempty"`
 }
 
 // Prop is one object property.
@@ -179,6 +182,12 @@ func (s *Schema) Render() map[string]any {
 	}
 	if s.Default != nil {
 		m["default"] = s.Default
+	}
+	if s.Description != "" {
+		m["description"] = s.Description
+	}
+	if s.Deprecated {
+		m["deprecated"] = true
 	}
 	return m
 }
